@@ -675,6 +675,11 @@ type wssAttempt struct {
 	nData     int
 	cut       bool // connection ended / terminate before the operation did
 	lost      bool // a write for it failed
+	// terminalAt: simulated time of the terminal message
+	terminalAt time.Duration
+	// cutByClient: cut by connection_terminate or by a rejected graphql-ws connection_init (cutWhy)
+	cutByClient bool
+	cutWhy      string
 }
 
 func (e *wssEnv) check(leftover bool) {
@@ -717,8 +722,10 @@ func (e *wssEnv) check(leftover bool) {
 		}
 		return nil
 	}
+	var now time.Duration
 	terminate := func(at *wssAttempt, typ string) {
 		at.terminal = typ
+		at.terminalAt = now
 		if typ == "complete" {
 			at.completes++
 		}
@@ -795,6 +802,7 @@ func (e *wssEnv) check(leftover bool) {
 	}
 
 	for _, v := range e.events {
+		now = v.at
 		if errSince >= 0 && !readTimedOut && v.at >= errSince+e.readErrTimeout-eps {
 			// no successful read for the whole read error time-out: the server gives the connection
 			// up, which cancels every operation on it (the handler returns after its pending read)
@@ -845,8 +853,8 @@ func (e *wssEnv) check(leftover bool) {
 					pending = append(pending, obligation{kind: "connection_error", why: "init-rejected", from: a})
 					for _, l := range attempts {
 						for _, at := range l {
-							if at.terminal == "" {
-								at.cut = true
+							if at.terminal == "" && !at.cut {
+								at.cut, at.cutByClient, at.cutWhy = true, true, "rejected-init"
 							}
 						}
 					}
@@ -872,8 +880,8 @@ func (e *wssEnv) check(leftover bool) {
 			case "terminate":
 				for _, l := range attempts {
 					for _, at := range l {
-						if at.terminal == "" {
-							at.cut = true
+						if at.terminal == "" && !at.cut {
+							at.cut, at.cutByClient, at.cutWhy = true, true, "connection_terminate"
 						}
 					}
 				}
@@ -926,8 +934,17 @@ func (e *wssEnv) check(leftover bool) {
 			case "complete":
 				if at := active(a.id); at != nil {
 					at.stopped = true
-				} else if len(attempts[a.id]) > 0 {
-					lateStop[a.id] = true
+				} else if l := attempts[a.id]; len(l) > 0 {
+					// "late stop" (known finding) is the window between an operation's terminal message
+					// and the release of its id: it exists only while no simulated time has passed
+					// (time passes only when nothing is runnable, so the release has happened by then)
+					lateStop[a.id] = false
+					for i := len(l) - 1; i >= 0; i-- {
+						if !l[i].rejected {
+							lateStop[a.id] = l[i].terminalAt == v.at
+							break
+						}
+					}
 				}
 			}
 		case "readerr":
@@ -1118,7 +1135,17 @@ func (e *wssEnv) check(leftover bool) {
 					terminate(target, v.typ)
 					continue
 				}
-				key := v.typ + "-after-" + target.terminal + afterKind(target, lateStop[v.id] && v.typ == "complete")
+				kind := afterKind(target, lateStop[v.id] && v.typ == "complete")
+				if kind == "" {
+					// the id may still be held by an older subscription of this id that failed and was
+					// never stopped (known finding: it stays registered and keeps executing)
+					for _, o := range l {
+						if o != target && !o.stopped && o.terminal == "error" && o.inst != nil && o.inst.ran && o.inst.op != nil && o.inst.op.kind == wssOpSubscription {
+							kind = "-of-failed-subscription"
+						}
+					}
+				}
+				key := v.typ + "-after-" + target.terminal + kind
 				if v.typ == "complete" {
 					target.completes++
 				}
@@ -1235,6 +1262,17 @@ func (e *wssEnv) check(leftover bool) {
 			}
 			if !at.stopped && at.nData < len(in.emitted) && at.terminal == "complete" {
 				r.Fail(prop, "lost-data", "", "%s: id %q: the executor produced %d result(s) but only %d were sent before the terminal message", e.protoName(), id, len(in.emitted), at.nData)
+			}
+		}
+	}
+	// operations the client terminated (connection_terminate, graphql-ws init rejected by the server)
+	// must really have been cancelled when the connection was still open a settle period later
+	if settled {
+		for id, l := range attempts {
+			for _, at := range l {
+				if at.cutByClient && at.inst != nil && at.inst.ran && at.inst.op != nil && at.inst.op.kind == wssOpSubscription && !at.stopped && !tainted[id] && !at.inst.cancelledWhileOpen {
+					r.Fail(prop, "terminate-ignored", at.cutWhy, "%s: after %s the operation started by %s was still running (its context was never cancelled) when the connection ended a settle period later", e.protoName(), at.cutWhy, short(at.act.raw))
+				}
 			}
 		}
 	}
